@@ -245,6 +245,27 @@ def rule_rec_nw(ctx, F):
     ctx.check(got == want, 'R-REC', F.file, F.name, 'DP predecessors',
               'predecessor costs are %s; Needleman-Wunsch requires substitution cost on the diagonal and the indel cost (+ penalty) on the two gap moves'
               % sorted(got.items()), st[4].line, detail=str(sorted(got.items())))
+    # the cost function is applied to (symbol of s1 at the row, symbol of s2 at the column), in this order (substitution matrices need not be symmetric)
+    calls = []
+    for x in walk_expr(value if value is not None else st[3]):
+        if x[0] == 'call' and x[1] == ('var', 'fn') and x not in calls:
+            calls.append(x)
+    for x in walk_expr(st[3]):
+        if x[0] == 'call' and x[1] == ('var', 'fn') and x not in calls:
+            calls.append(x)
+    okc = bool(calls)
+    for c in calls:
+        a = c[2]
+        good = len(a) == 2 and all(y[0] == 'idx' and y[1][0] == 'var' for y in a)
+        if good:
+            try:
+                ti, tj = kernels.term(a[0][2], amap), kernels.term(a[1][2], amap)
+            except Exception:  # noqa
+                ti = tj = None
+            good = (a[0][1][1], ti) == ('s1', V('i')) and (a[1][1][1], tj) == ('s2', V('j'))
+        okc = okc and good
+    ctx.check(okc, 'R-REC', F.file, F.name, 'cost arguments',
+              'cell (i, j) must be scored with fn(s1[i], s2[j]); found %s' % [fmt(c)[:60] for c in calls], st[4].line)
     ctx.sample({'kernel': F.name, 'predecessors': sorted((list(k), v) for k, v in got.items())})
     return p
 
